@@ -1,6 +1,858 @@
 import OnetVerif.Model.C10
-/-! Property C10 — property theorems, negation witnesses, `_partial` variants and non-vacuity
-examples only (helper lemmas that need Mathlib go to OnetVerif/Proofs/). -/
+/-! Property C10 — closing a server is clean and safe under concurrent traffic.
+Only property theorems, witnesses, non-vacuity examples and the lemmas they need. -/
 namespace C10
+
+/-! ### the router: invariant of every schedule -/
+
+/-- what holds of every connection in every reachable state -/
+structure Good (fixed flag stopped : Bool) (c : Conn) : Prop where
+  /-- a receive loop exists only after a successful launch -/
+  a  : c.setup ≠ .ok → c.h = .none
+  /-- a receive loop that is past its deferred `c.Close()` has closed the connection -/
+  b  : c.h = .removing ∨ c.h = .gone → c.isOpen = false
+  /-- an open connection is always somebody's: its set-up goroutine has still to register it,
+  or it is listed while `Stop` has not run, or its receive loop is alive -/
+  k  : fixed = true → c.isOpen = true →
+        c.setup = .greeting ∨ c.setup = .pending ∨ (flag = false ∧ c.inTable = true) ∨ c.h.live = true
+  /-- once the flag is set every listed connection is closed -/
+  l  : flag = true → c.inTable = true → c.isOpen = false
+  /-- a live receive loop's connection is listed -/
+  lt : c.h.live = true → c.inTable = true
+  /-- once a `Stop` has returned there is no live receive loop -/
+  j  : stopped = true → c.h.live = false
+  r  : c.setup = .registered → c.inTable = true
+
+structure Inv (fixed : Bool) (s : St) : Prop where
+  conns : ∀ c ∈ s.conns, Good fixed s.flag s.stopped c
+  sf    : s.stopped = true → s.flag = true
+  /-- a `Stop` that is in or past `wg.Wait()` has set the flag -/
+  pf    : ∀ p ∈ s.stops, p ≠ .crit → s.flag = true
+  nl    : s.stops ≠ [] → s.listening = false
+  ss    : s.stopped = true → s.stops ≠ []
+
+theorem inv_init (f : Bool) : Inv f {} := by
+  constructor <;> simp
+
+theorem getElem?_mem {α} {l : List α} {i : Nat} {a : α} (h : l[i]? = some a) : a ∈ l := by
+  obtain ⟨hi, rfl⟩ := List.getElem?_eq_some_iff.mp h
+  exact List.getElem_mem hi
+
+theorem inv_setConn {f : Bool} {s : St} {i : Nat} {c c' : Conn} (h : Inv f s)
+    (hc : s.conns[i]? = some c) (hg : Good f s.flag s.stopped c → Good f s.flag s.stopped c') :
+    Inv f (s.setConn i c') := by
+  refine ⟨?_, h.sf, h.pf, h.nl, h.ss⟩
+  intro x hx
+  simp only [St.setConn] at hx ⊢
+  rcases List.mem_or_eq_of_mem_set hx with hx | rfl
+  · exact h.conns x hx
+  · exact hg (h.conns c (getElem?_mem hc))
+
+theorem inv_append {f : Bool} {s : St} {c : Conn} (h : Inv f s) (hg : Good f s.flag s.stopped c) :
+    Inv f { s with conns := s.conns ++ [c] } := by
+  refine ⟨?_, h.sf, h.pf, h.nl, h.ss⟩
+  intro x hx
+  simp only [List.mem_append, List.mem_singleton] at hx
+  rcases hx with hx | rfl
+  · exact h.conns x hx
+  · exact hg
+
+theorem mem_set_stop {l : List StopPc} {j : Nat} {a p : StopPc} (h : p ∈ l.set j a) : p = a ∨ p ∈ l := by
+  rcases List.mem_or_eq_of_mem_set h with h | h
+  · exact Or.inr h
+  · exact Or.inl h
+
+/-- **every action preserves the invariant** -/
+theorem inv_step {f : Bool} {s s' : St} {a : Act} (h : Inv f s) (hs : step f s a = some s') : Inv f s' := by
+  cases a with
+  | dial =>
+    simp only [step, Option.some.injEq] at hs; subst hs
+    exact inv_append h (by constructor <;> simp [Handler.live])
+  | incoming =>
+    simp only [step] at hs
+    split at hs
+    · simp only [Option.some.injEq] at hs; subst hs
+      exact inv_append h (by constructor <;> simp [Handler.live])
+    · simp at hs
+  | identity i ok =>
+    simp only [step] at hs
+    split at hs
+    · rename_i c hc
+      split at hs
+      · rename_i hsu
+        simp only [Option.some.injEq] at hs; subst hs
+        apply inv_setConn h hc
+        intro g
+        obtain ⟨ga, gb, gk, gl, glt, gj, gr⟩ := g
+        have hn := ga (by rw [hsu]; simp)
+        cases ok <;> constructor <;> simp_all [Handler.live]
+      · simp at hs
+    · simp at hs
+  | register i =>
+    simp only [step] at hs
+    split at hs
+    · rename_i c hc
+      split at hs
+      · rename_i hsu
+        simp only [Option.some.injEq] at hs; subst hs
+        apply inv_setConn h hc
+        intro g
+        obtain ⟨ga, gb, gk, gl, glt, gj, gr⟩ := g
+        have hn := ga (by rw [hsu]; simp)
+        cases hfl : s.flag <;> cases f <;> constructor <;> simp_all [Handler.live]
+      · simp at hs
+    · simp at hs
+  | launch i =>
+    simp only [step] at hs
+    split at hs
+    · rename_i c hc
+      split at hs
+      · rename_i hsu
+        simp only [Option.some.injEq] at hs; subst hs
+        have hsf := h.sf
+        apply inv_setConn h hc
+        intro g
+        obtain ⟨ga, gb, gk, gl, glt, gj, gr⟩ := g
+        have hn := ga (by rw [hsu]; simp)
+        cases hfl : s.flag <;> cases hst : s.stopped <;> constructor <;> simp_all [Handler.live]
+      · simp at hs
+    · simp at hs
+  | peerSend i m =>
+    simp only [step] at hs
+    split at hs
+    · rename_i c hc
+      split at hs
+      · simp only [Option.some.injEq] at hs; subst hs
+        apply inv_setConn h hc
+        intro g
+        obtain ⟨ga, gb, gk, gl, glt, gj, gr⟩ := g
+        constructor <;> simp_all
+      · simp at hs
+    · simp at hs
+  | peerClose i =>
+    simp only [step] at hs
+    split at hs
+    · rename_i c hc
+      split at hs
+      · simp only [Option.some.injEq] at hs; subst hs
+        apply inv_setConn h hc
+        intro g
+        obtain ⟨ga, gb, gk, gl, glt, gj, gr⟩ := g
+        constructor <;> simp_all
+      · simp at hs
+    · simp at hs
+  | recv i =>
+    simp only [step] at hs
+    split at hs
+    · rename_i c hc
+      split at hs
+      · rename_i hh
+        split at hs
+        · simp only [Option.some.injEq] at hs; subst hs
+          apply inv_setConn h hc
+          intro g
+          obtain ⟨ga, gb, gk, gl, glt, gj, gr⟩ := g
+          constructor <;> simp_all [Handler.live]
+        · split at hs
+          · simp only [Option.some.injEq] at hs; subst hs
+            apply inv_setConn h hc
+            intro g
+            obtain ⟨ga, gb, gk, gl, glt, gj, gr⟩ := g
+            constructor <;> simp_all [Handler.live]
+          · simp at hs
+      · simp at hs
+    · simp at hs
+  | check i =>
+    simp only [step] at hs
+    split at hs
+    · rename_i c hc
+      split at hs
+      · rename_i x hh
+        simp only [Option.some.injEq] at hs; subst hs
+        apply inv_setConn h hc
+        intro g
+        obtain ⟨ga, gb, gk, gl, glt, gj, gr⟩ := g
+        cases hfl : s.flag <;> cases x <;> constructor <;> simp_all [Handler.live]
+      · simp at hs
+    · simp at hs
+  | dispatch i =>
+    simp only [step] at hs
+    split at hs
+    · rename_i c hc
+      split at hs
+      · rename_i m hh
+        simp only [Option.some.injEq] at hs; subst hs
+        have := inv_setConn (c' := { c with h := .recv }) h hc (by
+          intro g
+          obtain ⟨ga, gb, gk, gl, glt, gj, gr⟩ := g
+          constructor <;> simp_all [Handler.live])
+        exact ⟨this.conns, this.sf, this.pf, this.nl, this.ss⟩
+      · simp at hs
+    · simp at hs
+  | hclose i =>
+    simp only [step] at hs
+    split at hs
+    · rename_i c hc
+      split at hs
+      · rename_i hh
+        simp only [Option.some.injEq] at hs; subst hs
+        apply inv_setConn h hc
+        intro g
+        obtain ⟨ga, gb, gk, gl, glt, gj, gr⟩ := g
+        constructor <;> simp_all [Handler.live]
+      · simp at hs
+    · simp at hs
+  | hremove i =>
+    simp only [step] at hs
+    split at hs
+    · rename_i c hc
+      split at hs
+      · rename_i hh
+        simp only [Option.some.injEq] at hs; subst hs
+        apply inv_setConn h hc
+        intro g
+        obtain ⟨ga, gb, gk, gl, glt, gj, gr⟩ := g
+        have hso : c.setup = .ok := Classical.byContradiction fun hne => by
+          have := ga hne; simp_all
+        constructor <;> simp_all [Handler.live]
+      · simp at hs
+    · simp at hs
+  | stopBegin =>
+    simp only [step, Option.some.injEq] at hs; subst hs
+    refine ⟨h.conns, h.sf, ?_, by simp, by simp⟩
+    intro p hp hne
+    simp only [List.mem_append, List.mem_singleton] at hp
+    rcases hp with hp | rfl
+    · exact h.pf p hp hne
+    · exact absurd rfl hne
+  | stopCrit j =>
+    simp only [step] at hs
+    split at hs
+    · simp only [Option.some.injEq] at hs; subst hs
+      refine ⟨?_, by simp, by simp, ?_, ?_⟩
+      · intro x hx
+        simp only [List.mem_map] at hx
+        obtain ⟨c, hc, rfl⟩ := hx
+        obtain ⟨ga, gb, gk, gl, glt, gj, gr⟩ := h.conns c hc
+        by_cases ht : c.inTable = true
+        · simp only [ht, if_true]
+          constructor <;> simp_all
+        · simp only [ht]
+          constructor <;> simp_all
+      · intro hne
+        apply h.nl
+        intro he
+        simp [he] at hne
+      · intro hst
+        have := h.ss hst
+        intro he
+        apply this
+        have hl : (s.stops.set j StopPc.wait).length = 0 := by simp at he; simp [he]
+        simpa using hl
+    · simp at hs
+  | stopWait j =>
+    simp only [step] at hs
+    split at hs
+    · rename_i hcond
+      simp only [Option.some.injEq] at hs; subst hs
+      simp only [Bool.and_eq_true, Bool.not_eq_true', decide_eq_true_eq] at hcond
+      obtain ⟨hj, hlive⟩ := hcond
+      have hflag : s.flag = true := h.pf .wait (getElem?_mem hj) (by simp)
+      refine ⟨?_, fun _ => hflag, ?_, ?_, ?_⟩
+      · intro c hc
+        obtain ⟨ga, gb, gk, gl, glt, gj, gr⟩ := h.conns c hc
+        have hnl : c.h.live = false := by
+          simp only [anyLive, List.any_eq_false] at hlive
+          simpa using hlive c hc
+        exact ⟨ga, gb, gk, gl, glt, fun _ => hnl, gr⟩
+      · intro p hp hne
+        exact hflag
+      · intro hne
+        apply h.nl
+        intro he
+        simp [he] at hj
+      · intro _ he
+        have hl : (s.stops.set j StopPc.returned).length = 0 := by simp at he; simp [he]
+        have : s.stops = [] := by simpa using hl
+        simp [this] at hj
+    · simp at hs
+
+theorem inv_run (f : Bool) (s : St) (h : Inv f s) (acts : List Act) : Inv f (run f s acts) := by
+  induction acts generalizing s with
+  | nil => exact h
+  | cons a as ih =>
+    simp only [run]
+    cases hs : step f s a with
+    | none => exact ih s h
+    | some s' => exact ih s' (inv_step h hs)
+
+/-! ### the theorems about the router -/
+
+/-- once some `Stop` has returned, that stays so, and the dispatch log does not move any more -/
+theorem stopped_step {f : Bool} {s s' : St} {a : Act} (h : Inv f s) (hst : s.stopped = true)
+    (hs : step f s a = some s') : s'.stopped = true ∧ s'.log = s.log := by
+  cases a with
+  | dispatch i =>
+    simp only [step] at hs
+    split at hs
+    · rename_i c hc
+      split at hs
+      · rename_i m hh
+        have := (h.conns c (getElem?_mem hc)).j hst
+        simp [hh, Handler.live] at this
+      · simp at hs
+    · simp at hs
+  | stopCrit j =>
+    simp only [step] at hs
+    split at hs
+    · simp only [Option.some.injEq] at hs; subst hs; exact ⟨hst, rfl⟩
+    · simp at hs
+  | stopWait j =>
+    simp only [step] at hs
+    split at hs
+    · simp only [Option.some.injEq] at hs; subst hs; exact ⟨rfl, rfl⟩
+    · simp at hs
+  | stopBegin => simp only [step, Option.some.injEq] at hs; subst hs; exact ⟨hst, rfl⟩
+  | dial => simp only [step, Option.some.injEq] at hs; subst hs; exact ⟨hst, rfl⟩
+  | incoming =>
+    simp only [step] at hs
+    split at hs
+    · simp only [Option.some.injEq] at hs; subst hs; exact ⟨hst, rfl⟩
+    · simp at hs
+  | identity i ok | register i | launch i | peerSend i m | peerClose i | check i | hclose i | hremove i =>
+    simp only [step] at hs
+    split at hs
+    · split at hs
+      · simp only [Option.some.injEq] at hs; subst hs; exact ⟨hst, rfl⟩
+      · simp at hs
+    · simp at hs
+  | recv i =>
+    simp only [step] at hs
+    split at hs
+    · split at hs
+      · split at hs
+        · simp only [Option.some.injEq] at hs; subst hs; exact ⟨hst, rfl⟩
+        · split at hs
+          · simp only [Option.some.injEq] at hs; subst hs; exact ⟨hst, rfl⟩
+          · simp at hs
+      · simp at hs
+    · simp at hs
+
+/-- **no dispatch after close**: for every schedule, with unboundedly many connections, once a
+`Stop` call has returned no receive loop is alive, no `dispatch` action is enabled, and whatever
+happens afterwards — late connections, messages still arriving, further sends, further `Stop`s —
+the list of dispatched messages stays what it was when `Stop` returned. -/
+theorem c10_no_dispatch_after_close (fixed : Bool) (acts : List Act) :
+    let s := run fixed {} acts
+    s.stopped = true →
+      (∀ c ∈ s.conns, c.h.live = false) ∧
+      (∀ i, step fixed s (.dispatch i) = none) ∧
+      (∀ more, (run fixed s more).log = s.log ∧ (run fixed s more).stopped = true) := by
+  intro s hst
+  have hinv : Inv fixed s := inv_run fixed {} (inv_init fixed) acts
+  refine ⟨fun c hc => (hinv.conns c hc).j hst, ?_, ?_⟩
+  · intro i
+    cases hd : step fixed s (.dispatch i) with
+    | none => rfl
+    | some s' =>
+      exfalso
+      simp only [step] at hd
+      split at hd
+      · rename_i c hc
+        split at hd
+        · rename_i m hh
+          have := (hinv.conns c (getElem?_mem hc)).j hst
+          simp [hh, Handler.live] at this
+        · simp at hd
+      · simp at hd
+  · intro more
+    have key : ∀ (t : St), Inv fixed t → t.stopped = true →
+        (run fixed t more).log = t.log ∧ (run fixed t more).stopped = true := by
+      induction more with
+      | nil => intro t _ ht; exact ⟨rfl, ht⟩
+      | cons a as ih =>
+        intro t hi ht
+        simp only [run]
+        cases hs : step fixed t a with
+        | none => exact ih t hi ht
+        | some t' =>
+          obtain ⟨h1, h2⟩ := stopped_step hi ht hs
+          obtain ⟨h3, h4⟩ := ih t' (inv_step hi hs) h1
+          exact ⟨h3.trans h2, h4⟩
+    exact key s hinv hst
+
+/-- **all closed**: on the current code, for every schedule: when a `Stop` has returned and
+every goroutine of the router has come to rest, every connection ever opened or accepted —
+before, while or after `Stop` ran — is closed. -/
+theorem c10_all_closed (acts : List Act) :
+    let s := run true {} acts
+    s.stopped = true → quiescent s = true → ∀ c ∈ s.conns, c.isOpen = false := by
+  intro s hst hq c hc
+  have hinv : Inv true s := inv_run true {} (inv_init true) acts
+  have g := hinv.conns c hc
+  have hflag := hinv.sf hst
+  simp only [quiescent, Bool.and_eq_true, List.all_eq_true] at hq
+  have hq1 := hq.1 c hc
+  simp only [Bool.or_eq_true, beq_iff_eq] at hq1
+  cases ho : c.isOpen with
+  | false => rfl
+  | true =>
+    exfalso
+    rcases g.k rfl ho with h1 | h1 | h1 | h1
+    · rcases hq1.1 with h2 | h2 <;> simp [h1] at h2
+    · rcases hq1.1 with h2 | h2 <;> simp [h1] at h2
+    · simp [hflag] at h1
+    · rcases hq1.2 with h2 | h2 <;> simp [h2, Handler.live] at h1
+
+/-- the code before commit d76eafc: a connection whose registration is refused because `Stop` has
+run is left open for ever (`Send` after `Stop`: dial, stop, refused) — the probed leak -/
+theorem c10_all_closed_needed_the_fix :
+    let s := run false {} [.dial, .stopBegin, .stopCrit 0, .stopWait 0, .register 0]
+    s.stopped = true ∧ quiescent s = true ∧ (s.conns.map (·.isOpen)) = [true] := by
+  decide
+
+/-- steps the set-up goroutine of a connection still has to take -/
+def Setup.rank : Setup → Nat
+  | .greeting => 3 | .pending => 2 | .registered => 1 | .ok => 0 | .err => 0
+
+/-- steps a receive loop has still to take once the closed flag is set -/
+def Handler.rank : Handler → Nat
+  | .disp _ => 5 | .recv => 4 | .got _ => 3 | .closing => 2 | .removing => 1 | .gone => 0 | .none => 0
+
+/-- **racing operations fail cleanly**: in every reachable state, whatever `Stop` is doing,
+(1) a set-up goroutine (a `Send` that has to connect, an incoming connection) that is not
+finished can always take its next step — it is never stuck — and that step brings it strictly
+closer to its end, which is `ok` or `err` (`Setup.rank = 0`);
+(2) the wait group is never misused: when `launchHandleRoutine` adds to it, no `Stop` is in or
+past `wg.Wait()`;
+(3) a `Stop` that waits is never stuck either: either `wg.Wait()` can return, or some receive
+loop can take a step, and under the closed flag every step of a receive loop brings it strictly
+closer to its end. -/
+theorem c10_racing_ops_fail_cleanly (fixed : Bool) (acts : List Act) :
+    let s := run fixed {} acts
+    (∀ i c, s.conns[i]? = some c →
+      (c.setup = .greeting → ∀ ok, ∃ s', step fixed s (.identity i ok) = some s' ∧
+          ∃ c', s'.conns[i]? = some c' ∧ c'.setup.rank < c.setup.rank) ∧
+      (c.setup = .pending → ∃ s', step fixed s (.register i) = some s' ∧
+          ∃ c', s'.conns[i]? = some c' ∧ c'.setup.rank < c.setup.rank) ∧
+      (c.setup = .registered → ∃ s', step fixed s (.launch i) = some s' ∧
+          ∃ c', s'.conns[i]? = some c' ∧ c'.setup.rank < c.setup.rank ∧
+            (c'.setup = .ok → ∀ p ∈ s.stops, p = .crit))) ∧
+    (∀ j, s.stops[j]? = some .wait →
+      (∃ s', step fixed s (.stopWait j) = some s') ∨
+      (∃ i c, s.conns[i]? = some c ∧ c.h.live = true ∧
+        ∃ a, (a = .recv i ∨ a = .check i ∨ a = .dispatch i ∨ a = .hclose i) ∧
+          ∃ s', step fixed s a = some s' ∧ ∃ c', s'.conns[i]? = some c' ∧ c'.h.rank < c.h.rank)) := by
+  intro s
+  have hinv : Inv fixed s := inv_run fixed {} (inv_init fixed) acts
+  have hset : ∀ (i : Nat) (c c' : Conn), s.conns[i]? = some c → (s.setConn i c').conns[i]? = some c' := by
+    intro i c c' hc
+    simp only [St.setConn]
+    rw [List.getElem?_set_self]
+    exact (List.getElem?_eq_some_iff.mp hc).1
+  constructor
+  · intro i c hc
+    refine ⟨?_, ?_, ?_⟩
+    · intro hg ok
+      have hstep : step fixed s (.identity i ok) = some (s.setConn i
+          (if ok then { c with setup := .pending } else { c with setup := .err, isOpen := false })) := by
+        simp only [step, hc, hg, if_true]
+      refine ⟨_, hstep, _, hset i c _ hc, ?_⟩
+      cases ok <;> simp [hg, Setup.rank]
+    · intro hg
+      have hstep : step fixed s (.register i) = some (s.setConn i
+          (if s.flag then { c with setup := .err, isOpen := c.isOpen && !fixed }
+           else { c with setup := .registered, inTable := true })) := by
+        simp only [step, hc, hg, if_true]
+      refine ⟨_, hstep, _, hset i c _ hc, ?_⟩
+      cases s.flag <;> simp [hg, Setup.rank]
+    · intro hg
+      have hstep : step fixed s (.launch i) = some (s.setConn i
+          (if s.flag then { c with setup := .err } else { c with setup := .ok, h := .recv })) := by
+        simp only [step, hc, hg, if_true]
+      refine ⟨_, hstep, _, hset i c _ hc, ?_⟩
+      cases hfl : s.flag
+      · refine ⟨by simp [hg, Setup.rank], ?_⟩
+        intro _ p hp
+        exact Classical.byContradiction fun hne => by
+          have := hinv.pf p hp hne
+          simp [hfl] at this
+      · exact ⟨by simp [hg, Setup.rank], by simp⟩
+  · intro j hj
+    have hflag : s.flag = true := hinv.pf .wait (getElem?_mem hj) (by simp)
+    cases hl : anyLive s.conns with
+    | false =>
+      left
+      exact ⟨{ s with stops := s.stops.set j .returned, stopped := true }, by simp [step, hj, hl]⟩
+    | true =>
+      right
+      simp only [anyLive, List.any_eq_true] at hl
+      obtain ⟨c, hcm, hlive⟩ := hl
+      obtain ⟨i, hi, hget⟩ := List.getElem_of_mem hcm
+      have hc : s.conns[i]? = some c := by rw [List.getElem?_eq_getElem hi, hget]
+      have g := hinv.conns c hcm
+      have hclosed : c.isOpen = false := g.l hflag (g.lt hlive)
+      refine ⟨i, c, hc, hlive, ?_⟩
+      cases hh : c.h with
+      | none => simp [hh, Handler.live] at hlive
+      | removing => simp [hh, Handler.live] at hlive
+      | gone => simp [hh, Handler.live] at hlive
+      | recv =>
+        have hstep : step fixed s (.recv i) = some (s.setConn i { c with h := .got none }) := by
+          simp [step, hc, hh, hclosed]
+        exact ⟨.recv i, by simp, _, hstep, _, hset i c _ hc, by simp [Handler.rank]⟩
+      | got x =>
+        have hstep : step fixed s (.check i) = some (s.setConn i { c with h := .closing }) := by
+          simp [step, hc, hh, hflag]
+        exact ⟨.check i, by simp, _, hstep, _, hset i c _ hc, by simp [Handler.rank]⟩
+      | disp m =>
+        have hstep : step fixed s (.dispatch i) =
+            some { (s.setConn i { c with h := .recv }) with log := s.log ++ [(i, m)] } := by
+          simp [step, hc, hh]
+        exact ⟨.dispatch i, by simp, _, hstep, _, hset i c { c with h := .recv } hc, by simp [Handler.rank]⟩
+      | closing =>
+        have hstep : step fixed s (.hclose i) = some (s.setConn i { c with h := .removing, isOpen := false }) := by
+          simp [step, hc, hh]
+        exact ⟨.hclose i, by simp, _, hstep, _, hset i c _ hc, by simp [Handler.rank]⟩
+
+theorem idem_aux (fixed : Bool) (s : St) (hinv : Inv fixed s) (hst : s.stopped = true) :
+    run fixed s [.stopBegin, .stopCrit s.stops.length, .stopWait s.stops.length]
+      = { s with stops := s.stops ++ [.returned] } := by
+  have hflag := hinv.sf hst
+  have hlisten : s.listening = false := hinv.nl (hinv.ss hst)
+  have hmap : s.conns.map (fun c => if c.inTable then { c with isOpen := false } else c) = s.conns := by
+    conv => rhs; rw [← List.map_id s.conns]
+    apply List.map_congr_left
+    intro c hc
+    by_cases ht : c.inTable = true
+    · have := (hinv.conns c hc).l hflag ht
+      simp only [ht, if_true, id]
+      cases c; simp_all
+    · simp [ht]
+  have hnl : anyLive s.conns = false := by
+    simp only [anyLive, List.any_eq_false]
+    intro c hc
+    simpa using (hinv.conns c hc).j hst
+  obtain ⟨flag, listening, conns, stops, log, stopped⟩ := s
+  simp only at hst hflag hlisten hmap hnl
+  subst hst hflag hlisten
+  have h1 : (stops ++ [StopPc.crit])[stops.length]? = some .crit := by simp
+  have h2 : ((stops ++ [StopPc.crit]).set stops.length StopPc.wait)[stops.length]? = some .wait := by
+    simp
+  simp only [run, step, h1, if_true, hmap, h2, hnl, Bool.not_false, Bool.and_true, decide_true]
+  simp
+
+/-- **idempotent**: when a `Stop` has returned, a further `Stop` that finds everything at rest
+runs through without waiting, panics nowhere and changes nothing: no connection, no flag, no
+dispatched message — only its own record is added. -/
+theorem c10_idempotent (fixed : Bool) (acts : List Act) :
+    let s := run fixed {} acts
+    s.stopped = true →
+      run fixed s [.stopBegin, .stopCrit s.stops.length, .stopWait s.stops.length]
+        = { s with stops := s.stops ++ [.returned] } := by
+  intro s hst
+  exact idem_aux fixed s (inv_run fixed {} (inv_init fixed) acts) hst
+
+/-! ### the overlay -/
+
+structure OvGood (closed : Bool) (x : Inst) : Prop where
+  /-- listed instances have been through the critical section and their reader runs -/
+  ld : x.listed = true → x.decided = true
+  bl : x.bound = true → x.listed = true
+  /-- decided and not listed — refused because closed, or finished — means: reader stopped -/
+  dr : x.decided = true → x.listed = false → x.reader = false
+  cl : closed = true → x.listed = false
+
+theorem ov_inv_step {o o' : Ov} {a : OvAct} (h : ∀ x ∈ o.insts, OvGood o.closed x)
+    (hs : ovStep o a = some o') :
+    (∀ x ∈ o'.insts, OvGood o'.closed x) ∧ (o.closed = true → o'.closed = true) := by
+  cases a with
+  | create =>
+    simp only [ovStep, Option.some.injEq] at hs; subst hs
+    refine ⟨?_, id⟩
+    intro x hx
+    simp only [List.mem_append, List.mem_singleton] at hx
+    rcases hx with hx | rfl
+    · exact h x hx
+    · constructor <;> simp
+  | decide i =>
+    simp only [ovStep] at hs
+    split at hs
+    · rename_i x hx
+      split at hs
+      · simp at hs
+      · simp only [Option.some.injEq] at hs; subst hs
+        refine ⟨?_, id⟩
+        intro y hy
+        rcases List.mem_or_eq_of_mem_set hy with hy | rfl
+        · exact h y hy
+        · obtain ⟨g1, g2, g3, g4⟩ := h x (getElem?_mem hx)
+          cases hc : o.closed <;> constructor <;> simp_all
+    · simp at hs
+  | bind i =>
+    simp only [ovStep] at hs
+    split at hs
+    · rename_i x hx
+      split at hs
+      · simp only [Option.some.injEq] at hs; subst hs
+        refine ⟨?_, id⟩
+        intro y hy
+        rcases List.mem_or_eq_of_mem_set hy with hy | rfl
+        · exact h y hy
+        · obtain ⟨g1, g2, g3, g4⟩ := h x (getElem?_mem hx)
+          constructor <;> simp_all
+      · simp at hs
+    · simp at hs
+  | done i =>
+    simp only [ovStep] at hs
+    split at hs
+    · rename_i x hx
+      split at hs
+      · simp only [Option.some.injEq] at hs; subst hs
+        refine ⟨?_, id⟩
+        intro y hy
+        rcases List.mem_or_eq_of_mem_set hy with hy | rfl
+        · exact h y hy
+        · obtain ⟨g1, g2, g3, g4⟩ := h x (getElem?_mem hx)
+          constructor <;> simp_all
+      · simp at hs
+    · simp at hs
+  | close =>
+    simp only [ovStep, Option.some.injEq] at hs; subst hs
+    refine ⟨?_, fun _ => rfl⟩
+    intro y hy
+    simp only [List.mem_map] at hy
+    obtain ⟨x, hx, rfl⟩ := hy
+    obtain ⟨g1, g2, g3, g4⟩ := h x hx
+    by_cases hl : x.listed = true
+    · simp only [hl, if_true]; constructor <;> simp_all
+    · simp only [hl]
+      constructor <;> simp_all
+
+theorem ov_inv_run (o : Ov) (h : ∀ x ∈ o.insts, OvGood o.closed x) (acts : List OvAct) :
+    (∀ x ∈ (ovRun o acts).insts, OvGood (ovRun o acts).closed x) ∧
+    (o.closed = true → (ovRun o acts).closed = true) := by
+  induction acts generalizing o with
+  | nil => exact ⟨h, id⟩
+  | cons a as ih =>
+    simp only [ovRun]
+    cases hs : ovStep o a with
+    | none => exact ih o h
+    | some o' =>
+      obtain ⟨h1, h2⟩ := ov_inv_step h hs
+      obtain ⟨h3, h4⟩ := ih o' h1
+      exact ⟨h3, fun hc => h4 (h2 hc)⟩
+
+/-- **no instance after close**: for every interleaving of instance creations (local protocol
+starts, instances created for incoming messages), bindings, `Done`s and `Overlay.Close`, with
+unboundedly many instances: once `Close` has been through, and for ever after, no instance is
+listed, none has a protocol bound to it, `RegisterProtocolInstance` is refused for every
+instance, and every instance whose creation has completed — whether it began before or after
+`Close` — has no reader goroutine any more. -/
+theorem c10_no_instance_after_close (acts : List OvAct) :
+    let o := ovRun {} acts
+    o.closed = true →
+      (∀ x ∈ o.insts, x.listed = false ∧ x.bound = false ∧ (x.decided = true → x.reader = false)) ∧
+      (∀ i, ovStep o (.bind i) = none) ∧
+      (∀ more, (ovRun o more).closed = true) := by
+  intro o hc
+  have hinv := (ov_inv_run {} (by simp) acts).1
+  have hall : ∀ x ∈ o.insts, x.listed = false ∧ x.bound = false ∧ (x.decided = true → x.reader = false) := by
+    intro x hx
+    obtain ⟨g1, g2, g3, g4⟩ := hinv x hx
+    have hl := g4 hc
+    refine ⟨hl, ?_, fun hd => g3 hd hl⟩
+    cases hb : x.bound with
+    | false => rfl
+    | true => simp [g2 hb] at hl
+  refine ⟨hall, ?_, fun more => (ov_inv_run o hinv more).2 hc⟩
+  intro i
+  simp only [ovStep]
+  cases hi : o.insts[i]? with
+  | none => rfl
+  | some x => simp [(hall x (getElem?_mem hi)).1]
+
+/-- before commit 2493f6e the overlay had no closed state: an instance created after `Close` was
+listed and kept its reader — in this model: `decide` without the `closed` test.  The witness is
+what the probe did on the real code: close, then start. -/
+theorem c10_start_after_close_is_refused :
+    ovRun {} [.close, .create, .decide 0, .bind 0] =
+      { closed := true, insts := [{ decided := true, listed := false, reader := false, bound := false }] } := by
+  decide
+
+/-! ### the tree store -/
+
+def cleanerRank : Cleaner → Nat
+  | .armed _ => 2 | .fired => 1 | .done => 0
+
+theorem tsMeasure_eq (t : Ts) : tsMeasure t = (t.cleaners.map cleanerRank).sum +
+    (match t.close with | .idle => 3 | .locked => 2 | .waiting => 1 | .returned => 0) := by
+  simp only [tsMeasure]
+  congr 2
+
+theorem sum_map_set {l : List Cleaner} {i : Nat} {a b : Cleaner} (h : l[i]? = some a) :
+    ((l.set i b).map cleanerRank).sum + cleanerRank a = (l.map cleanerRank).sum + cleanerRank b := by
+  induction l generalizing i with
+  | nil => simp at h
+  | cons x xs ih =>
+    cases i with
+    | zero =>
+      simp only [List.getElem?_cons_zero, Option.some.injEq] at h
+      subst h
+      simp only [List.set_cons_zero, List.map_cons, List.sum_cons]
+      omega
+    | succ n =>
+      simp only [List.getElem?_cons_succ] at h
+      have := ih h
+      simp only [List.set_cons_succ, List.map_cons, List.sum_cons]
+      omega
+
+/-- every step of a cleaner or of `Close` uses up the measure; arming does not add to it once
+the store is closed -/
+theorem ts_step_measure {u : Bool} {t t' : Ts} {a : TsAct} (hs : tsStep u t a = some t') :
+    (a ≠ .arm → tsMeasure t' < tsMeasure t) ∧ (t.closed = true → tsMeasure t' ≤ tsMeasure t) := by
+  rw [tsMeasure_eq, tsMeasure_eq]
+  cases a with
+  | arm =>
+    simp only [tsStep] at hs
+    split at hs; · simp at hs
+    split at hs
+    · simp only [Option.some.injEq] at hs; subst hs; simp
+    · rename_i hc
+      simp only [Option.some.injEq] at hs; subst hs
+      simp [hc]
+  | fire i =>
+    simp only [tsStep] at hs
+    split at hs
+    · rename_i b hi
+      simp only [Option.some.injEq] at hs; subst hs
+      have := sum_map_set (b := .fired) hi
+      simp only [cleanerRank] at this
+      constructor <;> intros <;> simp only <;> omega
+    · simp at hs
+  | cleanup i =>
+    simp only [tsStep] at hs
+    split at hs; · simp at hs
+    split at hs
+    · rename_i hi
+      simp only [Option.some.injEq] at hs; subst hs
+      have := sum_map_set (b := .done) hi
+      simp only [cleanerRank] at this
+      constructor <;> intros <;> simp only <;> omega
+    · simp at hs
+  | cancel i =>
+    simp only [tsStep] at hs
+    split at hs
+    · rename_i hi
+      simp only [Option.some.injEq] at hs; subst hs
+      have := sum_map_set (b := .done) hi
+      simp only [cleanerRank] at this
+      constructor <;> intros <;> simp only <;> omega
+    · simp at hs
+  | lock =>
+    simp only [tsStep] at hs
+    split at hs
+    · rename_i hc
+      simp only [Option.some.injEq] at hs; subst hs
+      have hm : (t.cleaners.map Cleaner.cancelled).map cleanerRank = t.cleaners.map cleanerRank := by
+        rw [List.map_map]
+        apply List.map_congr_left
+        intro c _
+        cases c <;> rfl
+      simp only [hc]
+      rw [hm]
+      constructor <;> intros <;> omega
+    · simp at hs
+  | unlock =>
+    simp only [tsStep] at hs
+    split at hs
+    · rename_i hc
+      simp only [Bool.and_eq_true, decide_eq_true_eq] at hc
+      simp only [Option.some.injEq] at hs; subst hs
+      simp only [hc.1]
+      constructor <;> intros <;> omega
+    · simp at hs
+  | wait =>
+    simp only [tsStep] at hs
+    split at hs
+    · rename_i hc
+      simp only [Bool.and_eq_true, Bool.or_eq_true, decide_eq_true_eq] at hc
+      simp only [Option.some.injEq] at hs; subst hs
+      rcases hc.1 with h1 | h1
+      · simp only [h1]; constructor <;> intros <;> omega
+      · simp only [h1.1]; constructor <;> intros <;> omega
+    · simp at hs
+
+/-- **`Close` of the tree store terminates** (current order: unlock, then wait — commit 148f173):
+in every state in which `Close` has started and not returned, `Close` or one of the cleaning
+goroutines can take a step — whatever timers have fired meanwhile, with any number of cleaners —
+and every such step uses up a measure that nothing increases after `Close` has taken the lock. So
+`Close`, and with it `Overlay.Close` and `Server.Close`, returns after at most `tsMeasure` steps. -/
+theorem c10_close_terminates (acts : List TsAct) :
+    let t := tsRun true {} acts
+    ((t.close = .locked ∨ t.close = .waiting) →
+      (∃ t', tsStep true t .unlock = some t') ∨ (∃ t', tsStep true t .wait = some t') ∨
+      (∃ i t', tsStep true t (.fire i) = some t') ∨ (∃ i t', tsStep true t (.cleanup i) = some t')) ∧
+    (∀ a t', tsStep true t a = some t' →
+      (a ≠ .arm → tsMeasure t' < tsMeasure t) ∧ (t.closed = true → tsMeasure t' ≤ tsMeasure t)) := by
+  intro t
+  refine ⟨?_, fun a t' hs => ts_step_measure hs⟩
+  intro hc
+  rcases hc with hc | hc
+  · left; exact ⟨{ t with close := .waiting }, by simp [tsStep, hc]⟩
+  · cases hall : t.cleaners.all (· == .done) with
+    | true => right; left; exact ⟨{ t with close := .returned }, by simp [tsStep, hc, hall]⟩
+    | false =>
+      right; right
+      simp only [List.all_eq_false] at hall
+      obtain ⟨c, hcm, hnd⟩ := hall
+      obtain ⟨i, hi, hget⟩ := List.getElem_of_mem hcm
+      have hci : t.cleaners[i]? = some c := by rw [List.getElem?_eq_getElem hi, hget]
+      cases c with
+      | armed b => left; exact ⟨i, { t with cleaners := t.cleaners.set i .fired }, by simp [tsStep, hci]⟩
+      | fired => right; exact ⟨i, { t with cleaners := t.cleaners.set i .done }, by simp [tsStep, hci, hc]⟩
+      | done => simp at hnd
+
+/-- the order before the fix (wait while holding the lock): a cleaner whose timer fires just
+before `Close` takes the lock can never take it; `Close` waits for that cleaner for ever.  No
+action is enabled — the probed hang (`onet_c10_treestorage_close_hang_probe_test.go`). -/
+theorem c10_treestore_old_order_deadlocks :
+    let t := tsRun false {} [.arm, .fire 0, .lock]
+    t.close = .locked ∧ t.cleaners = [.fired] ∧
+    tsStep false t .unlock = none ∧ tsStep false t .wait = none ∧ tsStep false t (.cleanup 0) = none ∧
+    tsStep false t (.cancel 0) = none ∧ tsStep false t (.fire 0) = none := by
+  decide
+
+/-! ### `Server.Close` as a whole -/
+
+/-- closing twice: the second `Server.Close` finds every part closed, changes nothing, cannot
+panic (there is no such outcome), and at worst returns the error of the already removed file -/
+theorem c10_server_close_idempotent (s : Srv) :
+    (serverClose (serverClose s).1).1 = (serverClose s).1 ∧
+    (serverClose s).1 = { started := false, routerUp := false, wsStarted := false, ovClosed := true,
+                          tsClosed := true, dbOpen := false, dbFile := false } := by
+  simp [serverClose]
+
+/-! ### non-vacuity -/
+
+/-- a schedule with traffic: one outgoing and one incoming connection, messages dispatched, then
+`Stop` racing with a delivery in flight; everything ends closed and at rest -/
+example :
+    let s := run true {} [.dial, .incoming, .identity 1 true, .register 0, .register 1, .launch 0, .launch 1,
+      .peerSend 0 7, .peerSend 1 8, .recv 0, .check 0, .dispatch 0, .recv 1, .check 1,
+      .stopBegin, .stopCrit 0, .dispatch 1, .recv 0, .recv 1, .check 0, .check 1,
+      .hclose 0, .hclose 1, .hremove 0, .hremove 1, .stopWait 0]
+    s.stopped = true ∧ quiescent s = true ∧ s.log = [(0, 7), (1, 8)] ∧ s.conns.map (·.isOpen) = [false, false] := by
+  decide
+
+/-- a `Send` that connects after `Stop`: refused, and (now) closed -/
+example :
+    let s := run true {} [.stopBegin, .stopCrit 0, .stopWait 0, .dial, .register 0]
+    s.stopped = true ∧ quiescent s = true ∧ s.conns.map (fun c => (c.setup, c.isOpen)) = [(.err, false)] := by
+  decide
+
+/-- the tree store: two cleaners, one timer fires while `Close` holds the lock — it still ends -/
+example : (tsRun true {} [.arm, .arm, .fire 0, .lock, .unlock, .cleanup 0, .cancel 1, .wait]).close = .returned := by
+  decide
 
 end C10
